@@ -575,9 +575,15 @@ func (e *c06Env) afterOp(forgot bool) {
 		forgot = true // e.g. the last DATA of an upload whose response was already complete
 	}
 	e.deadSeen = dead
-	e.resumePending(forgot)
 	e.woke = false
-	e.collect(e.settled, c06Wait) // a RoundTrip that just went ahead may have more to write
+	if e.pending != nil {
+		// the client must have processed everything the peer sent in this operation before the
+		// waiting RoundTrip is woken and before we ask what it is going to find (a GOAWAY still
+		// in flight would otherwise be seen by us and not by the woken waiter)
+		e.sync()
+		e.resumePending(forgot)
+		e.collect(e.settled, c06Wait) // a RoundTrip that just went ahead may have more to write
+	}
 	e.sync()
 	if (e.goAwaySent || e.noReuse) && forgot && e.liveCount() == 0 && !e.closed {
 		// closeOnIdle: the client closes the connection with its last stream
